@@ -260,9 +260,13 @@ def malformed(ctx):
                     ctx.hist("malformed_first_attempt", ("banana" if pa else "failed") if hit else "not-applicable")
                     if not hit:
                         continue
+                    ca, cb = trial_then_retry.created[0]
                     if pa != pb or len(pa) > 1:
                         ctx.fail("oracle/malformed-disagree", "after malformed input %r the ends disagree: %r vs %r" % (cfg, pa, pb),
                                  replay=dict(cfg=cfg, A=pa, B=pb))
+                    elif ca and cb and ca != cb:
+                        ctx.fail("oracle/malformed-disagree", "after malformed input %r the two ends created their Brokers with different "
+                                 "(version, vocab table): %r vs %r" % (cfg, ca, cb), replay=dict(cfg=cfg, created=[ca, cb]))
                     # (binary-garbage carries no block terminator and stays under the header limit: the receiver rightly keeps
                     # waiting, and the attempt ends by the negotiation timeout)
                     if not pa and not trial_then_retry.prompt[0] and name not in ("binary-garbage",):
@@ -357,6 +361,132 @@ def malformed_with_existing(ctx):
                 E.turn()
 
 
+# ---------------------------------------------------------------------------------------------
+# structural damage to ONE LINE of a negotiation block (hello of either end, decision): every line a block really carries, found by
+# recording an undamaged run -- so a key that is added to a block later is covered without touching this file
+BLOCK_LINE = re.compile(rb"^([A-Za-z][A-Za-z0-9-]*): ([^\r\n]*)\r\n$", re.S)
+LINE_DAMAGE = [
+    # (name, fn(key, value) -> bytes written instead of b"key: value\r\n"); every result holds a line WITHOUT the key/value separator
+    ("colon-to-space", lambda k, v: k + b" " + v + b"\r\n"),
+    ("colon-dropped", lambda k, v: k + v + b"\r\n"),
+    ("colon-to-equals", lambda k, v: k + b"=" + v + b"\r\n"),
+    ("key-only", lambda k, v: k + b"\r\n"),
+    ("value-only", lambda k, v: (v + b"\r\n") if v.strip() and b":" not in v else None),
+    ("junk-line-before", lambda k, v: b"x-junk\r\n" + k + b": " + v + b"\r\n"),
+    ("junk-line-after", lambda k, v: k + b": " + v + b"\r\nx junk\r\n"),
+]
+
+
+def block_lines(r, a_high, rb=None):
+    """[(side, key)] of every 'key: value' line of the negotiation blocks of an undamaged attempt, in the order sent"""
+    seen = []
+
+    def rec(link, s_, d):
+        m = BLOCK_LINE.match(d)
+        if m and link.name == "L0" and (s_, m.group(1)) not in seen:
+            seen.append((s_, m.group(1)))
+        return d
+    out = trial_then_retry(r, a_high, rec, rb)
+    return seen, out
+
+
+def recorded_blocks(r, a_high, rb=None):
+    """the negotiation blocks of an undamaged attempt as lists of (key, value), in the order sent"""
+    blocks, cur = [], {}
+
+    def rec(link, s_, d):
+        if link.name != "L0":
+            return d
+        m = BLOCK_LINE.match(d)
+        if m:
+            cur.setdefault(s_, []).append((m.group(1), m.group(2)))
+        elif d == b"\r\n" and cur.get(s_):
+            blocks.append(cur.pop(s_))
+        return d
+    trial_then_retry(r, a_high, rec, rb)
+    return blocks
+
+
+def damaged_lines(ctx):
+    """'Malformed ... negotiation input only ever ends that connection attempt' for the family 'one line of a block is not
+    key: value': for every line of every block, every damage of LINE_DAMAGE, both tub-id orders.  The block must be refused:
+    both ends abandon the attempt (no Broker on either side -- least of all Brokers with different parameters, which is what a
+    reader that skips the line and takes the documented default for the missing key produces), the caller hears of it without
+    waiting for the timeout, and a clean attempt afterwards succeeds."""
+    configs = [((1, 3, 0, 1), None)]
+    if ctx.tier != "quick":
+        configs += [((3, 3, 0, 1), None), ((2, 3, 1, 1), (1, 3, 0, 1)), ((1, 2, 0, 0), (2, 3, 0, 1)), ((3, 3, 1, 1), (3, 4, 0, 1))]
+    cfg = None
+    with quiet():
+        for (r, rb) in configs:
+            for a_high in (False, True):
+                lines, ctl = block_lines(r, a_high, rb)
+                want = expected(r, rb or r)
+                ctx.case(["damaged-line", "control", r, rb, a_high], nontrivial=True)
+                if ctl[0] != [want] or ctl[1] != [want] or ctl[2] != [42] or len(lines) < 7 \
+                        or not any(k == b"banana-decision-version" for (_, k) in lines):
+                    ctx.fail("oracle/damaged-line-control", "the undamaged control run of the damaged-line family did not connect with %r, or "
+                             "its blocks were not seen: %r, lines %r" % (want, ctl[:3], lines),
+                             replay=dict(cfg=dict(r=r, rb=rb, a_high=a_high), lines=repr(lines)))
+                    continue
+                for (side, key) in lines:
+                    for dname, dfn in LINE_DAMAGE:
+                        cfg = dict(damaged_line=key.decode(), damage=dname, side=side, a_high=a_high, r=r, rb=rb)
+                        hit = []
+
+                        def mangle(link, s_, d, side=side, key=key, dfn=dfn, hit=hit):
+                            if s_ != side or link.name != "L0" or hit:
+                                return d
+                            m = BLOCK_LINE.match(d)
+                            if not m or m.group(1) != key:
+                                return d
+                            d2 = dfn(m.group(1), m.group(2))
+                            if d2 is None:
+                                return d
+                            hit.append(d2)
+                            return d2
+                        try:
+                            out = trial_then_retry(r, a_high, mangle, rb)
+                        except Exception as e:
+                            import traceback
+                            ctx.fail("oracle/malformed-exception", "exception escaped to the transport for %r: %r" % (cfg, e),
+                                     replay=dict(cfg=cfg, tb=traceback.format_exc()))
+                            continue
+                        pa, pb, res, pa2, pb2, res2 = out
+                        ctx.case(["damaged-line", key.decode(), dname, side, a_high, r, rb], nontrivial=bool(hit))
+                        ctx.hist("damaged_line_first_attempt", ("banana" if pa or pb else "failed") if hit else "not-applicable")
+                        ctx.hist("damaged_line_key", key.decode())
+                        if not hit:
+                            continue
+                        cfg["sent_instead"] = repr(hit[0])
+                        ca, cb = trial_then_retry.created[0]
+                        got_it = cb if side == 0 else ca          # Brokers made by the end that RECEIVED the damaged block
+                        if pa != pb or len(pa) > 1 or (ca and cb and ca != cb):
+                            ctx.fail("oracle/malformed-disagree", "a block with a line that is not 'key: value' (%r) was not refused and the ends "
+                                     "disagree: Brokers created with (version, vocab table) %r by the dialer, %r by the listener (left afterwards: "
+                                     "%r / %r); %r" % (hit[0], ca, cb, pa, pb, cfg), replay=dict(cfg=cfg, A=pa, B=pb, created=[ca, cb]))
+                        elif got_it:
+                            ctx.fail("oracle/malformed-accepted", "a block with a line that is not 'key: value' (%r) did not end the attempt: the end "
+                                     "that received it switched to the RPC protocol with %r (left afterwards: %r / %r, call: %r); %r"
+                                     % (hit[0], got_it, pa, pb, res, cfg), replay=dict(cfg=cfg, A=pa, B=pb, created=[ca, cb], res=repr(res)))
+                        elif pa or res == [42]:
+                            ctx.fail("oracle/malformed-accepted", "a block with a line that is not 'key: value' (%r) did not end the attempt: both "
+                                     "ends switched to %r and the call returned %r; %r" % (hit[0], pa, res, cfg),
+                                     replay=dict(cfg=cfg, A=pa, B=pb, res=repr(res)))
+                        elif not trial_then_retry.prompt[0]:
+                            ctx.fail("oracle/malformed-not-reported", "after a damaged line %r the attempt was abandoned but the negotiation "
+                                     "failure was not reported: getReference stayed pending until the connection timeout and then got %r"
+                                     % (cfg, res), replay=dict(cfg=cfg, res=repr(res)))
+                        if len(res) != 1:
+                            ctx.fail("oracle/malformed-hang", "getReference fired %d times after a damaged line %r" % (len(res), cfg),
+                                     replay=dict(cfg=cfg))
+                        if pa2 != pb2 or pa2 != [want] or res2 != [42]:
+                            ctx.fail("oracle/malformed-poisons-later", "a clean attempt after a damaged line %r did not succeed: %r %r %r"
+                                     % (cfg, pa2, pb2, res2), replay=dict(cfg=cfg, A=pa2, B=pb2, res=repr(res2)))
+    if cfg:
+        ctx.sample(dict(kind="damaged-line", case=cfg))
+
+
 def coalesced(ctx):
     """the decision block may arrive in one packet together with the peer's first Banana traffic, however much there
     is of it: the outcome must not depend on that (regression: the 4096-byte header limit used to count it)"""
@@ -409,20 +539,27 @@ def coalesced(ctx):
                     E.turn()
 
 
-def trial_then_retry(r, a_high, mangle):
+def trial_then_retry(r, a_high, mangle, rb=None):
     E.reset_clock()
     net = Net()
     net.mangle = mangle
     (lo_id, lo_pem), (hi_id, hi_pem) = pems_sorted(2)
     pa, pb_ = (hi_pem, lo_pem) if a_high else (lo_pem, hi_pem)
     A = make_tub(net, "a", pa, mkneg(r))
-    B = make_tub(net, "b", pb_, mkneg(r))
+    B = make_tub(net, "b", pb_, mkneg(rb or r))
     furl = B.registerReference(T())
+    # 'parameters of the Broker created on each side': noted when the Broker is made, because a pair that was created with
+    # different tables does not live long enough to be seen in Tub.brokers afterwards
+    created = {"a": [], "b": []}
+    A.brokerClass = recording_broker(A.brokerClass, created["a"])
+    B.brokerClass = recording_broker(B.brokerClass, created["b"])
 
     prompt = []
+    made = []
 
     def attempt():
         res = []
+        del created["a"][:], created["b"][:]
         A.getReference(furl).addCallback(lambda rr: rr.callRemote("hi")).addBoth(res.append)
         E.turn()
         net.run()
@@ -437,6 +574,7 @@ def trial_then_retry(r, a_high, mangle):
         def params(t):
             return [(b._banana_decision_version, 1 if len(b.incomingVocabulary) else 0)
                     for b in t.brokers.values() if not b.disconnected]
+        made.append((list(created["a"]), list(created["b"])))
         return params(A), params(B), [getattr(x, "type", x) for x in res]
     first = attempt()
     # drop whatever was established, then a clean attempt on a fresh link
@@ -449,7 +587,22 @@ def trial_then_retry(r, a_high, mangle):
         t.stopService()
     E.turn()
     trial_then_retry.prompt = prompt
+    trial_then_retry.created = made       # per attempt: ([(version, table)] of the Brokers the dialer made, same for the listener)
     return first + second
+
+
+def recording_broker(base, log):
+    """a Broker class that notes (negotiated version, index of the initial vocabulary table it really starts with)"""
+    from foolscap import vocab as _v
+
+    class RecordingBroker(base):
+        def __init__(self, *a, **kw):
+            base.__init__(self, *a, **kw)
+            words = sorted(self.incomingVocabulary.values())
+            idx = [k for k, t in _v.INITIAL_VOCAB_TABLES.items()
+                   if sorted(t) == words and sorted(self.outgoingVocabulary.keys()) == sorted(t)]
+            log.append((self._banana_decision_version, idx[0] if len(idx) == 1 else ("table", len(words), words[:3])))
+    return RecordingBroker
 
 
 # ---------------------------------------------------------------------------------------------
